@@ -22,12 +22,17 @@ Print Assumptions C19_clone_table_is_deep.
 
 (* every field of Transport / http2 Transport is named by Transport.Clone or is connection state;
    every reference-typed field of Client is deep-copied by Client.Clone; Options has exactly three
-   reference-typed fields - a field added to one of the structs breaks this proof *)
+   reference-typed fields, all three cloned by Options.Clone; the TLS fingerprint handshake is installed anew on
+   the clone; the only *tls.Config fields package req writes in place are the three the clone gets its own copy
+   of - a field added to one of the structs, or a new in-place TLS setter, breaks this proof *)
 Theorem C19_clone_field_inventory :
   covered (gen_transport_clone_fields ++ transport_runtime_fields) gen_transport_fields = true /\
   covered (gen_t2_clone_fields ++ t2_unset_fields) gen_t2_fields = true /\
   covered (gen_client_deep_fields ++ client_ref_special) gen_client_ref_fields = true /\
-  gen_options_ref_fields = options_ref_fields.
+  gen_options_ref_fields = options_ref_fields /\
+  covered gen_options_deep_fields gen_options_ref_fields = true /\
+  gen_fingerprint_reinstalled = true /\
+  covered tls_fields_cloned gen_tls_written_fields = true.
 Proof. exact clone_field_inventory. Qed.
 Print Assumptions C19_clone_field_inventory.
 
